@@ -98,6 +98,12 @@ def judge_fit(ctx, fam, X, where, probe_prefix='fit'):
             return None
         if must_refuse:
             ctx.ok(probe_prefix + '.refuses')
+            # the refusal is a function of the data, not of the instance's history: the same object must
+            # refuse the same data again
+            ok2, exc2 = ctx.call(model.fit, X.copy())
+            ctx.check(not ok2 and isinstance(exc2, ValueError), probe_prefix + '.refuses-again',
+                      'C10:%s-second-fit-on-refused-data-accepted' % fam,
+                      lambda: dict(where, tau_b=tb, theta=model.theta, second=repr(exc2)[:80]))
             return None
         # a ValueError outside the refusal classes: only tau = +/-1 (no finite theta) and
         # Clayton at tau = 0 (theta = 0 is not a Clayton copula) have no admissible theta
